@@ -151,6 +151,18 @@ def D22():
     _pipeline([{"phone": "12345678901-2"}], datetime=True)
 
 
+def D24():
+    src = os.path.join(HERE, "d24_input.json")
+    outs = set()
+    for seed in range(8):
+        env = dict(os.environ, PYTHONHASHSEED=str(seed), PYTHONPATH=os.environ.get("J2M_REPO", "/repo"))
+        o = subprocess.run([sys.executable, "-m", "json_to_models", "-m", "Root", src, "--merge", "percent_50"],
+                           capture_output=True, text=True, env=env)
+        assert o.returncode == 0, o.stderr[-500:]
+        outs.add(o.stdout.split('"""\n', 2)[-1])
+    assert len(outs) == 1, f"{len(outs)} distinct outputs over 8 hash seeds"
+
+
 def D13():
     samples = [{"a": None}, {"a": ["1"]}]
     for fw in ("attrs", "dataclasses"):
